@@ -219,6 +219,30 @@ def run_item(item) -> Acc:
                         continue
                     if g != want:
                         acc.fail({"check": "shebang", "linter": name, "shebang": sb.strip() or "<none>"}, {"cmd": cmd, "file": stem, "code": sb + code, "config": cfg}, want[:3], g[:3], "extensionless file: python iff it has a python shebang")
+                # (3b) the same script addressed from a working directory below the project root,
+                # and a link with an unsupported name that points at the source file
+                if name not in ("file-header", "lazy-ignores"):
+                    import os as _os  # noqa: PLC0415
+
+                    fsx = {"manage": "#!/usr/bin/env python3\n" + code, "real_source.py": code, "work/keep.txt": "x\n"}
+                    if cfg:
+                        fsx[".thailint.yaml"] = yaml_dump(cfg)
+                    root = project(fsx)
+                    _os.symlink(root / "real_source.py", root / "notes.txt")
+                    r1 = obs.cli_json([cmd, "../manage"], root / "work")
+                    r2 = obs.cli_json([cmd, "notes.txt"], root)
+                    remove(root)
+                    acc.case(2)
+                    acc.edge(2)
+                    acc.valid()
+                    acc.nt((name, "shebang-from-subdir"))
+                    g1 = sorted((t[0], t[2] - 1, t[4]) for t in own(obs.norm(r1["violations"] or [], root, root / "work")))
+                    want1 = sorted((t[0], t[1], t[3]) for t in ref)
+                    if g1 != want1:
+                        acc.fail({"check": "shebang", "linter": name, "shebang": "script-addressed-from-a-sub-directory"}, {"cmd": cmd, "file": "manage", "code": "#!/usr/bin/env python3\n" + code, "config": cfg, "cwd": "work", "target": "../manage"}, want1[:3], g1[:3])
+                    g2 = own(obs.norm(r2["violations"] or [], root, root))
+                    if g2:
+                        acc.fail({"check": "unrecognised-type", "linter": name, "ext": ".txt-symlink-to-.py"}, {"cmd": cmd, "file": "notes.txt", "code": code, "config": cfg}, "no violation", g2[:2], "a link called notes.txt is an unrecognised file type whatever it points at")
                 # (4) several extensionless files in ONE run, in both orders: each is judged on its own shebang
                 if name not in ("file-header", "lazy-ignores"):
                     script = "#!/usr/bin/env python3\n" + code
